@@ -72,7 +72,7 @@ func walkCheck(id string, fam *e1.Family, tier common.Tier) int {
 		for pi, pl := range plans {
 			for _, inU := range []bool{false, true} {
 				alpha := e1.Alphabet(fam, inU, files)
-				for _, mix := range e1.Mixes(pl.full) {
+				for mi, mix := range e1.Mixes(pl.full) {
 					e1.Histories(alpha, pl.depth, pl.maxDev, func(_ int, h []e1.Block) {
 						if pi > 0 && len(h) < 3 {
 							return // depth <= 2 is covered by the first plan
@@ -83,6 +83,14 @@ func walkCheck(id string, fam *e1.Family, tier common.Tier) int {
 						}
 						spec := &e1.Spec{InU: inU, Mix: mix, Blocks: h, Sites: sites}
 						e1.CheckSpec(run, fam, spec)
+						// the loader's other choice: the files of the package parsed in the opposite order, so that a later
+						// file holds the LOWER positions (histories spread over several files; quick tier: the mixes with @immutable and one listed constructor)
+						_ = mi
+						if multiFile(h) && (tier == "thorough" || (mix.Imm && mix.Ctor == 1 && mix.Extra == 0 && !mix.PreludeLast)) {
+							rs := *spec
+							rs.ReverseParse = true
+							e1.CheckSpec(run, fam, &rs)
+						}
 						if idx%9973 == 1 {
 							var hs []string
 							for _, b := range h {
@@ -96,6 +104,15 @@ func walkCheck(id string, fam *e1.Family, tier common.Tier) int {
 		}
 	})
 	return run.Finish()
+}
+
+func multiFile(h []e1.Block) bool {
+	for _, b := range h[1:] {
+		if b.File != h[0].File {
+			return true
+		}
+	}
+	return false
 }
 
 func C01(tier common.Tier) int { return walkCheck("C01", &e1.FamIMM, tier) }
